@@ -1,6 +1,7 @@
 package main
 
 import (
+	"go/token"
 	"go/types"
 	"sort"
 	"strings"
@@ -220,7 +221,32 @@ func c04Validators(p *Program, r *Report) {
 			r.Check(bad == "", "R-C04-2", fnName(pc)+"/result#"+itoa(i)+":substring-of-validated", p.Pos(ret.Pos()), "substring of the validated header", "a value returned by ParseCopySource passes through "+bad+" after validation: what is used is not what was validated")
 		}
 	}
-	// what the validators see is what is returned: IsOpaquePath argument covers bucket and object (same origin chain as results 0 and 1)
+	// what the validators see covers what is returned: each returned string is cut out of a value that was itself
+	// handed to a validator (validating a sibling piece, or only part of the header, validates nothing about the rest)
+	{
+		validated := map[ssa.Value]string{}
+		for _, c := range callsTo(pc, "backend.IsOpaquePath", "backend.IsOpaqueId") {
+			validated[callArgs(c)[0]] = calleeName(c)
+		}
+		for _, ret := range returnsOf(pc) {
+			if !isNilConst(ret.Results[len(ret.Results)-1]) {
+				continue
+			}
+			for i := 0; i < 3; i++ {
+				anc := substrAncestors(ret.Results[i])
+				by := ""
+				for v := range anc {
+					if n, ok := validated[v]; ok {
+						by = n
+					}
+				}
+				if c, isC := ret.Results[i].(*ssa.Const); isC && c.Value != nil {
+					by = "constant"
+				}
+				r.Check(by != "", "R-C04-2", fnName(pc)+"/result#"+itoa(i)+":cut-from-a-validated-value", p.Pos(ret.Pos()), "validated by "+by, "result #"+itoa(i)+" of ParseCopySource is not cut out of a value that IsOpaquePath/IsOpaqueId examined (only a sibling part of the header is validated): a source bucket of '..' or a key with '..' segments reaches the backend path")
+			}
+		}
+	}
 	// backends consume CopySource only via ParseCopySource
 	for _, pk := range []string{"backend/posix", "backend/scoutfs"} { // the filesystem backends
 		if p.SSAPkg[pk] == nil {
@@ -610,4 +636,44 @@ func controlsC04() []Control {
 		{Name: "DecodeURL decodes the path a second time after validating", Rule: "R-C04-4", File: "s3api/middlewares/url-decoder.go",
 			Old: "\t\tctx.Path(unescp)\n", New: "\t\tif again, err := url.PathUnescape(unescp); err == nil {\n\t\t\tunescp = again\n\t\t}\n\t\tctx.Path(unescp)\n", Expect: "Path<-validated"},
 	}
+}
+
+// substrAncestors: v and the values it was cut out of (slicing, strings.Cut/TrimPrefix/TrimSuffix/CutPrefix, phis).
+func substrAncestors(v ssa.Value) map[ssa.Value]bool {
+	out := map[ssa.Value]bool{}
+	var walk func(v ssa.Value)
+	walk = func(v ssa.Value) {
+		if v == nil || out[v] {
+			return
+		}
+		out[v] = true
+		switch x := v.(type) {
+		case *ssa.Slice:
+			walk(x.X)
+		case *ssa.Phi:
+			for _, e := range x.Edges {
+				walk(e)
+			}
+		case *ssa.Extract:
+			if c, ok := x.Tuple.(*ssa.Call); ok {
+				switch calleeName(c) {
+				case "strings.Cut", "strings.CutPrefix", "strings.CutSuffix":
+					walk(c.Call.Args[0])
+				}
+			}
+		case *ssa.Call:
+			switch calleeName(x) {
+			case "strings.TrimPrefix", "strings.TrimSuffix", "strings.TrimSpace", "strings.Trim", "strings.TrimLeft", "strings.TrimRight":
+				walk(x.Call.Args[0])
+			}
+		case *ssa.UnOp:
+			if al, ok := x.X.(*ssa.Alloc); ok && x.Op == token.MUL {
+				for _, st := range storesTo(al) {
+					walk(st.Val)
+				}
+			}
+		}
+	}
+	walk(v)
+	return out
 }
